@@ -37,7 +37,7 @@ example : ∃ c, gen ratPrims {} (fun _ => none)
     translate (`supported`), is accepted by `gen` — for all options and tables. -/
 theorem gen_total (P : Prims K) (o : Opts) (T : FTab K) (e : MExpr K) (h : supported T e = true) :
     ∃ c, gen P o T e = .ok c :=
-  PymocaVerif.Gen.gen_total P o T e h
+  gen_total_aux P o T e h
 
 example : supported (fun _ => none : FTab Rat)
     (.ife (.cons (.bin .le (.ref "x" []) (.num 1)) (.bin .div (.num 1) (.num 2))
